@@ -8,7 +8,7 @@ import time
 import traceback
 
 from . import values as V
-from .values import EngineSignal, Unsupported, SInt, SBool, SBytes, SBuf, SZeros, SOpaque, SStr
+from .values import EngineSignal, Unsupported, SInt, SBool, SBytes, SBuf, SMBuf, SZeros, SOpaque, SStr
 
 REGISTRY = {}
 
@@ -118,6 +118,23 @@ class Buf(Decl):
 
     def decode(self, j):
         return bytearray(j)
+
+
+class MBuf(Buf):
+    """mutable buffer of symbolic length with arbitrary initial contents (array-backed)"""
+
+    def make(self, name):
+        import z3
+
+        arr = z3.Array(name, z3.IntSort(), z3.BitVecSort(8))
+        n = V.sym_size(name + ".len", self.minlen, self.maxlen)
+        return V.SMBuf(arr, n)
+
+    def from_model(self, model, v):
+        import z3
+
+        n = min(model.eval(v.n.e, model_completion=True).as_long(), 4096)
+        return [model.eval(z3.Select(v.arr0, z3.IntVal(i)), model_completion=True).as_long() for i in range(n)]
 
 
 class Flag(Decl):
